@@ -91,8 +91,6 @@ structure Node where
   parent : Option Nat := none
   opts : List (Str × Nat) := []       -- ChildOptions: key (name or alias) ↦ option id
   cmds : List (Str × Nat) := []       -- ChildCommands: name ↦ node id
-  text : List Str := []               -- ChildText
-  unknown : List Str := []            -- UnknownOptions (names)
   fn : Option Nat := none             -- CommandFn id
   isHelp : Bool := false              -- CommandFn = runHelp
   helpName : Str := []                -- HelpCommandName
